@@ -166,6 +166,16 @@ def analyse(run: Any, expects: Dict[tuple, Expect], retire_probe: bool = True) -
                 w["g"] = "rerun"
         V.extend(W)
 
+    # ---- C16.c: DAGs built while other threads were running equal the sequentially built ones
+    for (c, i, dn), snap in run.built_tables.items():
+        want = run.ref_tables.get(dn)
+        if want is None:
+            continue
+        if snap["nodes"] != want["nodes"] or snap["edges"] != want["edges"] or snap["results"] != want["results"]:
+            extra = sorted(set(snap["nodes"]) - set(want["nodes"]))[:4]
+            missing = sorted(set(want["nodes"]) - set(snap["nodes"]))[:4]
+            V.append(viol("build_table", f"DAG {dn} built by client {c} differs from the sequential build: extra nodes {extra}, "
+                          f"missing {missing}", op=(c, i, 0)))
     # ---- operation outcomes (value / raise)
     state_seen: Dict[tuple, Any] = {}
     for c, ops in enumerate(scn["clients"]):
